@@ -7,6 +7,7 @@ check must recognise it although its own id is C11, so the finding lookup of
 checks/lib.py is wrapped (for this check only) to include that one entry.
 """
 import lib
+import DispTie
 from lib import TieCheck
 
 _orig_known = lib.known_findings
@@ -23,10 +24,15 @@ class C11(TieCheck):
     pid = "C11"
     area = "Dispatch"
     props = "Props_C11.v"
-    extra_props = [("Compose", "Props_Compose.v"), ("Compose", "Props_Compose2.v")]
+    extra_props = [("Compose", "Props_Compose.v"), ("Compose", "Props_Compose2.v")] + DispTie.PROPS
     gentie = "C11"
+    # tie A for ServeHTTP itself (docs/GenServe.md): the three files of the tie are built by DispTie.tie and
+    # re-checked as extra_props; the rest of the area is built on its own, so that a refused / no longer
+    # provable ServeHTTP leaves the model, the specification and the correspondence usable
+    coq_targets = DispTie.other_targets()
     harness = "c11"
     extra_trust = [
+        DispTie.TRUST,
         "model: coq/Dispatch/Dispatch.v transliterates Router.ServeHTTP (fox.go:531-653) with tree.lookup as a parameter; "
         "coq/Dispatch/Redirect.v transliterates defaultRedirectTrailingSlashHandler, localRedirect (Location/status), "
         "hexEscapeNonASCII, FixTrailingSlash and path.Base; specs: coq/Dispatch/DispatchSpec.v, coq/Dispatch/Uri.v (RFC 3986 5.2)",
@@ -39,6 +45,11 @@ class C11(TieCheck):
         "the Location clause is evaluated for requests whose wire path and query are ASCII without '?' (path) and '#' (both), i.e. what an RFC 3986 client can send",
         "special handlers are fox's defaults (404/405/200) wrapped by one observing middleware per scope",
     ]
+
+    def gen(self, tier):
+        """Regenerate coq/Dispatch/GenServe.v from (*Router).ServeHTTP of the tree under test and re-prove it
+        equal to Dispatch.serve_http; a refusal or a broken bridge is a "generated-model" problem."""
+        return DispTie.tie()
 
     def run(self, tier, seed, replay=None):
         if replay:
@@ -57,6 +68,7 @@ class C11(TieCheck):
             return super().run(tier, seed, replay)
         finally:
             lib.known_findings = _orig_known
+            DispTie.restore()   # a refused / unprovable GenServe.v must not break the builds of other checks
 
 
 CHECK = C11()
